@@ -391,16 +391,52 @@ func genWorldPlan(prop string, master uint64, run int) Plan {
 		pl.Cfg = neutralConfig(r)
 		b.parse(r.Chance(1, 4))
 		sw := setterWeights(r, []int{3, 2, 2, 3, 3, 3, 3, 2, 2})
-		kw := []int{10, r.Range(0, 4), r.Range(0, 2)}
+		kw := []int{10, r.Range(0, 4), r.Range(0, 2), 0, 0, 0}
+		cross := 0
+		if r.Chance(1, 6) {
+			// the tenth setter, SetSearchParams, with lists of this URL, of other URLs, and of URLs that
+			// belong to a differently configured parser (made by that parser resolving against a base of
+			// this one). The invariants are asked of the URLs of the default parser only.
+			kw[3], kw[4], kw[5] = r.Range(1, 3), r.Range(1, 4), r.Range(1, 3)
+			if r.Chance(2, 3) {
+				c2 := []Config{{Profile: "Semantic"}, {Profile: "GoogleSafeBrowsing"}, {Profile: "WhatWg"}, genConfig(r, true), genConfig(r, true)}[r.Intn(5)]
+				pl.Cfg2 = &c2
+				cross = 3
+			}
+		}
 		for i := 0; i < n; i++ {
 			u := b.pickU()
 			switch r.Weighted(kw) {
 			case 0:
 				b.set(u, r.Weighted(sw))
 			case 1:
-				b.resolve(u, r.Weighted([]int{3, 1}))
+				if id := b.resolve(u, r.Weighted([]int{3, 1, 0, cross})); b.ops[len(b.ops)-1].W == 3 && b.ops[len(b.ops)-1].D == id {
+					b.ops[len(b.ops)-1].V = "fwd"
+				}
 			case 2:
 				b.observer(u)
+			case 3:
+				b.getsp(u)
+			case 4:
+				if s := b.pickS(); s != 0 {
+					b.spMut(s, true)
+				} else {
+					b.getsp(u)
+				}
+			case 5:
+				if s := b.pickS(); s != 0 {
+					id := b.nextS
+					b.nextS++
+					b.add(Op{K: "setsp", P: b.party[u], H: u, W: s, D: id})
+					var keep []int
+					for _, x := range b.sps {
+						if b.spOf[x] != u {
+							keep = append(keep, x)
+						}
+					}
+					b.sps = append(keep, id)
+					b.spOf[id] = u
+				}
 			}
 		}
 	case "C03":
@@ -519,9 +555,41 @@ func genWorldPlan(prop string, master uint64, run int) Plan {
 			n = n / 3
 		}
 		sw := setterWeights(r, []int{1, 1, 1, 1, 1, 1, 2, 0, 2})
-		kw := []int{10, r.Range(1, 6), r.Range(0, 3), r.Range(0, 3), r.Range(0, 2)} // sp mutation, SetSearch, other setter, getsp, observer
+		kw := []int{10, r.Range(1, 6), r.Range(0, 3), r.Range(0, 3), r.Range(0, 2), 0} // sp mutation, SetSearch, other setter, getsp, observer, snapshot/install
+		if r.Chance(1, 4) {
+			// the URL's list is replaced through SetSearchParams by a list of its own: one of its handles
+			// or a SearchParams.Clone snapshot of one taken earlier (never mutated, never another URL's).
+			// Only the title's invariant is asked of it: what SearchParams() returns afterwards and the
+			// query describe the same thing.
+			kw[5] = r.Range(1, 3)
+		}
+		var snaps []int
 		for i := 0; i < n; i++ {
 			switch r.Weighted(kw) {
+			case 5:
+				s := b.pickS()
+				if s == 0 {
+					b.getsp(u)
+					break
+				}
+				if len(snaps) == 0 || r.Chance(1, 2) {
+					id := b.nextS
+					b.nextS++
+					snaps = append(snaps, id)
+					b.add(Op{K: "sp.clone", P: 1, H: s, D: id, W: 1})
+					break
+				}
+				x := s
+				if r.Chance(3, 4) {
+					k := r.Intn(len(snaps))
+					x = snaps[k]
+					snaps = append(snaps[:k:k], snaps[k+1:]...)
+				}
+				id := b.nextS
+				b.nextS++
+				b.add(Op{K: "setsp", P: 1, H: u, W: x, D: id, V: "own"})
+				b.sps = []int{id}
+				b.spOf[id] = u
 			case 0:
 				if s := b.pickS(); s != 0 {
 					b.spMut(s, true)
